@@ -541,7 +541,26 @@ def run(ctx, prj: Project):
         elif evaluated and rid in ctx.floors and len([i for i in ctx.instances.get(rid, []) if i.get("verdict") == "ok"]) < ctx.floors[rid] \
                 and not any(v.rule == rid for v in ctx.violations):
             ctx.floors.pop(rid, None)
+    mark3 = len(ctx.violations)
     rule_R3(ctx, prj, fns)
+    py_new = [v for v in ctx.violations[mark3:] if "languages/Python.py" in str(v.site)]
+    if py_new:
+        # the indentation scan is evaluated on token programs, one of them with a header at the very end of the token list (the
+        # case the must-guard reading is about): when nothing is raised there, the guard is somewhere this reading did not look
+        try:
+            from .. import pyblocks_eval
+            from ..absint import PyRaise as _PR, Unknown as _UK
+            res = pyblocks_eval.evaluate(prj)
+            if res and not any(isinstance(got, str) for _, got, _ in res):
+                for v in py_new:
+                    ctx.info(f"R3 (must-guard) would report {v.key} at {v.site}; Python.extract_blocks evaluated on {len(res)} token programs "
+                             f"(one with a header at the very end of the token list) raises nothing: not reported")
+                    for inst in ctx.instances.get("R3", []):
+                        if inst.get("what") == v.key and inst.get("verdict") == "violation":
+                            inst["verdict"] = "not reported (decided by the evaluated indentation scan)"
+                ctx.violations[mark3:] = [v for v in ctx.violations[mark3:] if v not in py_new]
+        except Exception as e:      # the evaluation is only used to withdraw findings
+            ctx.info(f"R3: Python.extract_blocks not evaluable ({type(e).__name__}: {e}); the must-guard reading stands")
     rule_R5(ctx, prj)
     rule_R6(ctx, prj)
     rule_R7(ctx, prj, fns)
